@@ -14,6 +14,7 @@ EXPLANATION = (
     "delta tiers and filters deleted edges, and compaction moves entries between tiers without dropping them. "
     "(R6) zone-map predicates answer no-match only on a definite order; R4: a caller-supplied value is inserted only with the summary widened on every path (a dirty flag alone counts for removals only). "
     "(R2b) whole-graph enumerators and counters take their ids from the primary version table, never from a derived side table. "
+    "(R8) no function enumerates a filtered view of a sequence and the sequence itself (two index spaces). "
     "Value-level equality of the access paths is not decided.")
 ASSUMPTIONS = ["the maintenance table in rules/c14.py (one row per mutator, confirmed by reading store.rs)"]
 
